@@ -462,3 +462,26 @@ func VerifC16Redirects() {
 		vrt.Assert("C16.redirect.denied-hop-is-policy-denied", errors.Is(err, ErrPolicyDenied))
 	}
 }
+
+// verif:harness props=C16 tier=quick weight=12
+// verif:bounds TWO deliveries to the same URL through the same deliverer with dns_rebind_protection on (and optionally a CIDR deny rule): the name resolves to a public address for the first delivery and to an arbitrary IPv4 address (all 2^32) for the second (DNS rebinding between deliveries); the stubbed client answers 200
+func VerifC16EveryDeliveryIsCheckedAfresh() {
+	res := &hResolver{}
+	pol := EgressPolicy{DNSRebindProtection: true}
+	d := NewHTTPDeliverer(&http.Client{}, pol)
+	d.Resolver = res
+	a := net.IP{93, 184, 216, 34} // (public: the first delivery passes)
+	b := net.IP{vrt.Byte("b0"), vrt.Byte("b1"), vrt.Byte("b2"), vrt.Byte("b3")}
+	del := Delivery{URL: "https://a.example.com/hook", Body: []byte("x"), Header: http.Header{}}
+	res.ips = []net.IP{a}
+	r1 := d.Deliver(context.Background(), del)
+	sent1 := len(vrt.HTTPRequests())
+	ok1 := refPublicV4(a[0], a[1], a[2], a[3])
+	vrt.Assert("C16.afresh.first-delivery-follows-its-own-resolution", (sent1 == 1) == ok1 && (ok1 || errors.Is(r1.Err, ErrPolicyDenied)))
+	res.ips = []net.IP{b}
+	r2 := d.Deliver(context.Background(), del)
+	sent2 := len(vrt.HTTPRequests()) - sent1
+	ok2 := refPublicV4(b[0], b[1], b[2], b[3])
+	vrt.Assert("C16.afresh.second-delivery-is-checked-against-the-addresses-of-its-own-time", (sent2 == 1) == ok2 && (ok2 || errors.Is(r2.Err, ErrPolicyDenied)))
+	vrt.Assert("C16.afresh.the-name-is-resolved-for-every-delivery", len(res.asked) == 2)
+}
